@@ -341,3 +341,46 @@ func memIndexTerms(t string, max int) []string {
 	walk(t)
 	return out
 }
+
+// heapIndexTerms: the offset terms X of (select (select |E_..| ref) X) in t
+func heapIndexTerms(t string, max int) []string {
+	var out []string
+	seen := map[string]bool{}
+	var walk func(x string)
+	walk = func(x string) {
+		if len(out) >= max || !strings.Contains(x, "|E_") {
+			return
+		}
+		p := splitSexp(x)
+		if p == nil {
+			return
+		}
+		if p[0] == "forall" || p[0] == "exists" {
+			return
+		}
+		if p[0] == "select" && len(p) == 3 {
+			if q := splitSexp(p[1]); q != nil && q[0] == "select" && len(q) == 3 && strings.HasPrefix(q[1], "|E_") {
+				if !seen[p[2]] && !strings.Contains(p[2], "!b") {
+					if _, lit := intLit(p[2]); !lit {
+						seen[p[2]] = true
+						// offset = base offset of the slice + index: the index is what spec quantifiers range over
+						if q := splitSexp(p[2]); q != nil && (q[0] == "+" || q[0] == "bvadd") && len(q) == 3 {
+							for _, part := range q[1:] {
+								if _, lit := intLit(part); !lit && !seen[part] && !strings.HasPrefix(part, "(select (select |H_") {
+									seen[part] = true
+									out = append(out, part)
+								}
+							}
+						}
+						out = append(out, p[2])
+					}
+				}
+			}
+		}
+		for _, a := range p[1:] {
+			walk(a)
+		}
+	}
+	walk(t)
+	return out
+}
